@@ -100,6 +100,11 @@ def inputs(t, rnd):
             vals.append("\"" * depth + inner + "\"" * depth)
             vals.append("rgb" + "(" * depth + "1, 2, 3" + ")" * depth)
     vals += [" " * 100000 + "#fff", "#" + "f" * 100000, "rgb(" + "1," * 50000 + "1)", "a" * 200000, "1" * 100000, "hsl(" + "9" * 5000 + ", 50%, 50%)"]
+    # informal number lists written the way a programmer would (zero padding, trailing comma, other literals): they are strings to
+    # be READ, never source code to be evaluated
+    vals += ["(010, 020, 030)", "( 007 , 8 , 9 )", "010, 020, 030", "[1, 2, 3]", "(1, 2, 3,)", "(0x10, 1, 2)", "(1_0, 2, 3)", "(1e1, 2, 3)", "(0o7, 1, 2)",
+             "(1, 2, 3) if 1 else 0", "(__import__('os').getcwd(), 1, 2)", "(1,\n2,\n3)", "(True, False, 1)", "(None, 1, 2)", "(1+1, 2, 3)", "((1), (2), (3))",
+             "(08, 09, 010)", "(0, 0, 0)", "(00, 00, 00)", "(1.0, 2.0, 3.0)", "(١, ٢, ٣)"]
     vals += ["#-1-2-3", "#+1+2+3", "# 1 2 3", "#1_2_3_", "#0x0x0x", "#-f-f-f", "#- - - ", "#١٢٣", "#１２３", "#ⅠⅡⅢ"]
     # keywords spelled with characters that only SOME case mappings fold to ASCII (long s, ligatures, Kelvin sign, dotless i ...)
     folds = [("s", "\u017f"), ("fi", "\ufb01"), ("fl", "\ufb02"), ("ff", "\ufb00"), ("st", "\ufb06"), ("k", "\u212a"), ("i", "\u0131"), ("I", "\u0130"),
@@ -148,11 +153,15 @@ def _pair_beh(job):
     ents = [[apirec.enc(good_t), apirec.enc(good_b)], [apirec.enc(t), apirec.enc(b), True], [apirec.enc("#000000"), apirec.enc("#ffffff")],
             [apirec.enc(t), apirec.enc(b)]]
     ops = [["new", 1, apirec.enc(t), apirec.enc(b), False], ["readable", 1], ["fix", 1, 1, False, False, False],
-           ["fix", 1, 2, True, False, False], ["fix", 1, 0, False, False, False],
+           ["fix", 1, 2, True, False, False], ["fix", 1, 0, False, False, False], ["fix", 1, 1, False, True, False],      # (the last one with show=True)
            ["new", 2, apirec.enc(good_t), apirec.enc(good_b), False], ["fix", 2, 1, False, False, False],
            ["new", 3, apirec.enc("#000000"), apirec.enc("#ffffff"), False], ["fix", 3, 1, False, False, False],
            ["bulk", ents, 1, False, False]]
-    return apirec.run_ops(ops)
+    # whatever the preview prints goes to an ordinary strict UTF-8 text stream (what a terminal or a pipe is)
+    import io, contextlib
+    sink = io.TextIOWrapper(io.BytesIO(), encoding="utf-8", errors="strict")
+    with contextlib.redirect_stdout(sink):
+        return apirec.run_ops(ops)
 
 
 def main():
@@ -175,6 +184,9 @@ def main():
     # pair-level follow-ups on a sample of inputs the library calls invalid (plus some it accepts)
     invalid_vals = [v for ch, r in zip(chunks, raws) for v, e in zip(ch, r) if e["raised"] != "" or not e["valid"]]
     sample = rnd.sample(invalid_vals, min(len(invalid_vals), 600 if t == "quick" else 12000)) + rnd.sample(vals, 100)
+    # inputs with characters a console encoding may refuse (lone surrogates, NUL, non-BMP): whatever is said about them must not raise
+    odd = [v for v in invalid_vals if isinstance(v, str) and any(ch in v for ch in ("\ud800", "\udfff", "\x00", "\U0001f3a8"))]
+    sample += rnd.sample(odd, min(len(odd), 60 if t == "quick" else 600))
     jobs = [(v, "#767676", "#ffffff", ("text", "bg", "both")[k % 3]) for k, v in enumerate(sample)]
     praws = vlib.pool_map(_pair_beh, jobs, chunksize=8)
     ptraces = [apirec.to_events(r, keys, cols) for r in praws]
